@@ -400,7 +400,11 @@ def run_one(tape, only=None):
             md = float(max(md, 1e-4))
             border = np.abs(D - md) < 1e-6
             mi = c["mi"]
-            dt = np.abs(fp["t"][:, None] - fs["t"][None, :])
+            # exact: time stamps are whole milliseconds (a float difference
+            # such as 2177.999 - 1577.999 is 599.9999999999998, not 600)
+            tp_ms = np.rint(fp["t"] * 1000.0).astype(np.int64)
+            ts_ms = np.rint(fs["t"] * 1000.0).astype(np.int64)
+            dt = np.abs(tp_ms[:, None] - ts_ms[None, :]) / 1000.0
             if c["window"]:
                 ws, we = c["window"]
                 inwin = ((fp["t"] >= ws) & (fp["t"] <= we))[:, None] & \
